@@ -3,6 +3,47 @@ import types
 import numpy as rnp
 from . import core, arrays
 from .core import SymxUnsupported
+from .arrays import is_sym, to_sarr, concrete, try_concrete, np as shim
+
+
+# ----------------------------------------------------------------------------- numpy.linalg
+class _Linalg(types.ModuleType):
+    def __getattr__(self, n):
+        real = getattr(rnp.linalg, n)
+
+        def g(*a, **k):
+            if any(is_sym(x) for x in a):
+                raise SymxUnsupported(f'numpy.linalg.{n} on symbolic data is not modelled')
+            return real(*a, **k)
+        return g
+
+
+linalg = _Linalg('numpy.linalg')
+
+
+def lstsq(A, b, rcond=None):
+    """A concrete (after realisation at the C boundary): x = pinv(A) @ b with the real numpy pinv, b may be symbolic,
+    so the solution is linear in the symbolic data (numpy's minimum-norm least squares)."""
+    Ac = try_concrete(to_sarr(A)) if is_sym(A) else rnp.asarray(A)
+    if Ac is None:
+        raise SymxUnsupported('lstsq with a symbolic design matrix')
+    if not is_sym(b):
+        return rnp.linalg.lstsq(Ac, b, rcond=rcond)
+    P = rnp.linalg.pinv(Ac)
+    x = arrays.dot(P, to_sarr(b))
+    return x, None, rnp.linalg.matrix_rank(Ac), None
+
+
+def pinv(A, *a, **k):
+    Ac = try_concrete(to_sarr(A)) if is_sym(A) else rnp.asarray(A)
+    if Ac is None:
+        raise SymxUnsupported('pinv of a symbolic matrix')
+    return rnp.linalg.pinv(Ac, *a, **k)
+
+
+linalg.lstsq = lstsq
+linalg.pinv = pinv
+shim.linalg = linalg
 
 
 def shims():
